@@ -518,13 +518,12 @@ c15_cases = [
     case("log of 3 entries, two requests with restart", "VerifC15Mirror", [3, 2, 0, 1], ["done", "mirror-cosigned", "restarted"], T),
     case("log of 3 entries, two requests, one fault", "VerifC15Mirror", [3, 2, 1, 0], ["done", "mirror-cosigned"], T),
     case("mid-tile commit (4 entries, cut at 3), two faults", "VerifC15Cut", [4, 3, 2], ["done", "cut-cosigned", "resumed"], T),
-    case("log of 258 entries, one request", "VerifC15Mirror", [258, 1, 0, 0], ["done", "mirror-cosigned"], T),
 ]
 CHECKS["C15"] = {
     "level": "model_checking",
     "jobs": [dict(WITNESS, harness=WW + ["internal_witness/zz_verif_c14.go", "internal_witness/zz_verif_c15.go"], native=False, cases=c15_cases)],
     "bounds": {"quick": "logs of 2-3 entries; pending checkpoint at a symbolic size (optionally growing to the full size between requests); 1-2 add-entries requests with every (start, end), wrong first entry, corrupted proof, body truncated at any byte, genuine or forged ticket; one lock/storage fault; restart between requests",
-               "thorough": "4 entries with fault and restart; 258 entries (tile boundary) with one request"},
+               "thorough": "3-4 entries with fault and restart; two faults on the mid-tile commit (a 258-entry log across the tile boundary did not finish within 50 minutes and is NOT part of the claim)"},
     "assumptions": [IDEAL_HASH, "ideal signatures; ticket AEAD = ideal (opens only what was sealed with the same associated data)", "gzip contract; HTTP framing of add-entries (headers, content-encoding) is not executed: the three processing phases are called as serveAddEntries calls them",
                     "torchwood.CheckSubtree / SubtreeHash / HashReaderOverlay and tlog tile code are executed from their real source", "requests are processed one at a time (the per-log mutex sections of the three phases are not interleaved with other requests)"],
 }
